@@ -1,0 +1,76 @@
+//! Verification-only support code, compiled only with `--cfg qcow2_rs_verif`.
+//!
+//! Nothing here is reachable in a normal build.  It provides
+//!
+//! * a `HashMap` alias whose hasher is keyed by a thread-local seed, so that a
+//!   deterministic simulator decides (and can replay) the iteration order of
+//!   the LRU cache maps instead of `RandomState`;
+//! * thread-local probe counters (`probe("name")`) used to show that rare
+//!   branches were actually reached by a simulation batch.
+use std::cell::{Cell, RefCell};
+use std::collections::BTreeMap;
+use std::hash::{BuildHasher, Hasher};
+
+thread_local! {
+    static HASH_SEED: Cell<u64> = const { Cell::new(0) };
+    static PROBES: RefCell<BTreeMap<&'static str, u64>> = const { RefCell::new(BTreeMap::new()) };
+}
+
+/// Set the seed used by every `SeededState` created afterwards on this thread.
+pub fn set_hash_seed(seed: u64) {
+    HASH_SEED.with(|s| s.set(seed));
+}
+
+#[derive(Clone, Debug)]
+pub struct SeededState(u64);
+
+impl Default for SeededState {
+    fn default() -> Self {
+        SeededState(HASH_SEED.with(|s| s.get()))
+    }
+}
+
+pub struct SeededHasher(u64);
+
+impl Hasher for SeededHasher {
+    fn finish(&self) -> u64 {
+        // splitmix64 finaliser
+        let mut z = self.0.wrapping_add(0x9e37_79b9_7f4a_7c15);
+        z = (z ^ (z >> 30)).wrapping_mul(0xbf58_476d_1ce4_e5b9);
+        z = (z ^ (z >> 27)).wrapping_mul(0x94d0_49bb_1331_11eb);
+        z ^ (z >> 31)
+    }
+
+    fn write(&mut self, bytes: &[u8]) {
+        for b in bytes {
+            self.0 = (self.0 ^ (*b as u64)).wrapping_mul(0x0000_0100_0000_01b3);
+        }
+    }
+
+    fn write_u64(&mut self, i: u64) {
+        self.0 = (self.0.rotate_left(5) ^ i).wrapping_mul(0x517c_c1b7_2722_0a95);
+    }
+
+    fn write_usize(&mut self, i: usize) {
+        self.write_u64(i as u64)
+    }
+}
+
+impl BuildHasher for SeededState {
+    type Hasher = SeededHasher;
+    fn build_hasher(&self) -> SeededHasher {
+        SeededHasher(self.0 ^ 0xcbf2_9ce4_8422_2325)
+    }
+}
+
+pub type HashMap<K, V> = std::collections::HashMap<K, V, SeededState>;
+
+/// Count one visit of a named branch.
+pub fn probe(name: &'static str) {
+    PROBES.with(|p| *p.borrow_mut().entry(name).or_insert(0) += 1);
+}
+
+/// Return and reset all probe counters of this thread.
+pub fn take_probes() -> BTreeMap<&'static str, u64> {
+    PROBES.with(|p| std::mem::take(&mut *p.borrow_mut()))
+}
